@@ -47,6 +47,9 @@ func collect(e *Env, family string, n int, draw func(t *rapid.T) PkgSpec) []PkgS
 				s.Meta["case_twin_components"] = n
 			}
 		}
+		if family != "C18" && s.Doc != nil && s.Raw == nil {
+			specgen.DecorateOps(t, s.Doc)
+		}
 		// a third of the documents carries vendor extensions of other tools, which goag ignores
 		if family != "C18" && s.Doc != nil && s.Raw == nil && rapid.IntRange(0, 2).Draw(t, "foreign_extensions") == 0 {
 			if raw, n := specgen.DecorateForeign(t, s.Doc.JSON()); n > 0 {
